@@ -105,6 +105,10 @@ class Engine(object):
             return a.t == b.t
         if a.ty == 'bool' and b.ty == 'bool':
             return a.t == b.t
+        if a.ty == 'bool' and b.ty == 'int' and z3.is_int_value(b.t):
+            # Python: True == 1, False == 0
+            v_ = b.t.as_long()
+            return a.t if v_ == 1 else (z3.Not(a.t) if v_ == 0 else z3.BoolVal(False))
         for e in self.ext:
             r = e.equal(self, ex, a, b, path, node)
             if r is not None:
@@ -336,7 +340,7 @@ class Engine(object):
 
     def static_isinstance(self, sv, clsname):
         table = {'dict': ('dict', 'fdict'), 'DiGraph': ('graph', 'kripke'), 'Kripke': ('kripke',),
-                 'str': ('str',), 'bool': ('bool',), 'set': ('set',), 'list': ('list', 'clist', 'pairlist')}
+                 'str': ('str',), 'bool': ('bool',), 'int': ('int', 'bool'), 'set': ('set',), 'list': ('list', 'clist', 'pairlist')}
         if clsname not in table:
             raise Unsupported('isinstance against %s' % clsname)
         if sv.ty == 'opt':
